@@ -587,7 +587,7 @@ func runC15(c *Ctx) {
 
 func init() {
 	Register(&Monitor{ID: "C15", Run: func(c *Ctx) {
-		c.Rule = "timestamps from an exhaustive calendar-boundary grid and a seeded generator, each through: String() judged by the independent lexer, ParseTimestamp(String()), text write+read, binary write+read (both also judged by the reference decoders), reference encoding and reference spelling read by ion-go; sequences of 2..6 timestamps of falling precision through one Reader and one Writer (the instant behind each value read, GetDateTime(), has to be the start of its period); impossible strings/encodings must be rejected; fractions of 10..30 digits must land within 0.5 ns. Oracle: independent proleptic-Gregorian arithmetic (no time.Time). Non-trivial: minute-or-finer precision with a non-UTC offset, fraction digits with leading/trailing zeros, or a month-end/year-edge date; distinct by (path, timestamp, input)."
+		c.Rule = "timestamps from an exhaustive calendar-boundary grid and a seeded generator, each through: String() judged by the independent lexer, ParseTimestamp(String()), text write+read, binary write+read (both also judged by the reference decoders), reference encoding and reference spelling read by ion-go; sequences of 2..6 timestamps of falling precision through one Reader and one Writer (the instant behind each value read, GetDateTime(), has to be the start of its period); instants around daylight-saving changes of seven real zones, carried by the zone database's own Locations (both passes of a repeated hour); NewTimestampFromStr called directly; impossible strings/encodings must be rejected; fractions of 10..30 digits must land within 0.5 ns. Oracle: independent proleptic-Gregorian arithmetic (no time.Time). Non-trivial: minute-or-finer precision with a non-UTC offset, fraction digits with leading/trailing zeros, or a month-end/year-edge date; distinct by (path, timestamp, input)."
 		c.Assume("timestamps with precision Nanosecond and 0 fractional digits are the same Ion value as precision Second")
 		runC15(c)
 	}, Replay: func(c *Ctx, v *Violation) string {
